@@ -1242,6 +1242,50 @@ func ruleNORECLASSIFY(c *Ctx, r *Report) {
 			}
 		}
 	}
+	// inside the constructors themselves: the content classifier (raw value → Literal/Wild/Regexp leaf) is
+	// applied to raw operands only, never to the payload of a node that already has a kind
+	general := c.pkgFunc(pkgExpr, "Expr")
+	var classifier *ssa.Function
+	for _, f := range c.Funcs {
+		if fnPkgPath(f) == pkgExpr && f.Parent() == nil && f.Signature.Params().Len() == 1 && isEmptyInterface(f.Signature.Params().At(0).Type()) &&
+			f.Signature.Results().Len() == 1 && isExprPtr(f.Signature.Results().At(0).Type()) {
+			ops := map[string]bool{}
+			for _, b := range f.Blocks {
+				for _, in := range b.Instrs {
+					if call, ok := in.(*ssa.Call); ok && call.Call.StaticCallee() != nil {
+						for _, o := range c.ctorOperator(call.Call.StaticCallee()) {
+							ops[o] = true
+						}
+					}
+				}
+			}
+			if ops["expr.Wild"] && ops["expr.Regexp"] && ops["expr.Literal"] {
+				classifier = f
+			}
+		}
+	}
+	if general != nil && classifier != nil {
+		for _, f := range c.Funcs {
+			if fnPkgPath(f) != pkgExpr || (f != general && !c.reachedOnlyFrom(f, general, 0)) {
+				continue
+			}
+			for _, b := range f.Blocks {
+				for _, in := range b.Instrs {
+					call, ok := in.(*ssa.Call)
+					if !ok || call.Call.StaticCallee() != classifier || len(call.Call.Args) != 1 {
+						continue
+					}
+					n++
+					k := c.key(call.Call.Args[0], nil)
+					if strings.HasSuffix(k, ".Left") || strings.HasSuffix(k, ".Right") {
+						r.badW(rule, fmt.Sprintf("%s|%s|arg0←%s", fnName(f), fnName(classifier), k), c.instrPos(in),
+							fmt.Sprintf("%s re-classifies the payload %s of an existing node by its content: a quoted value containing * or ?, or delimited by slashes, becomes a pattern and the comparison becomes a pattern match", fnName(f), k),
+							"`a:\"what?\"` renders SIMILAR TO 'what_'")
+					}
+				}
+			}
+		}
+	}
 	r.ok(rule, "operands-examined", "-", fmt.Sprintf("%d constructor operands in the parser packages examined", n))
 	r.floor(rule, "constructor operands", n, 25)
 }
